@@ -235,18 +235,26 @@ CHECKS["C14"] = dict(
 CHECKS["C13"] = dict(
    technique="contract-based deductive verification, relational: fvm1d.rhs executed symbolically on a problem and on its "
              "mirror image (abstract mesh); numflux, namedBC and the limiter through contracts whose mirror clauses are "
-             "proved at leaf level (C02 mirror, C13 bc-mirror, C12 odd/symmetric); staged ghost lemmas; z3/cvc5",
-   text="REFLECTION half of the statement, proof for all data, all strictly increasing meshes, symbolic ncell>=5 (four seam "
+             "proved at leaf level (C02 mirror, C13 bc-mirror, C12 odd/symmetric); staged ghost lemmas; z3/cvc5. Change of "
+             "units: dimensional typing (unit-exponent derivation, pyvc/dimcheck.py) of the symbolic residual and time "
+             "step produced by the real flux / boundary-condition / limiter / reconstruction bodies",
+   text="REFLECTION: proof for all data, all strictly increasing meshes, symbolic ncell>=5 (four seam "
         "cells + generic cell; 1..4 concrete for extrapol2): every registered boundary condition of every 1-D model commutes "
         "with the reflection (both sides, in its regime); the residual of the mirrored problem is the mirrored residual "
         "(even quantities equal, odd ones negated) and the per-cell time step is reflection invariant, for convection, "
         "Burgers, shallow water and Euler with periodic, dirichlet, wall and inlet/outlet pairs exchanged (quick tier: "
         "extrapol1/extrapol2 for all models, symbolic-kappa and MUSCL for the scalar models; thorough: all, where a few "
-        "Euler/extrapolk/MUSCL obligations remain undecided by the solvers). UNITS half: NOT decided by this check.",
-   note=TB + "; the change-of-units half of C13 (incl. bit-exactness for powers of two and the known scale dependence of the "
-        "vanalbada/vanleer regularisation literals) is not covered: no obligations are generated for it; integrators/driver by "
-        "linearity in the residuals (normal forms C05-C07) with the reflection-invariant time step.",
-   ref="§6 C13")
+        "Euler/extrapolk/MUSCL obligations remain undecided by the solvers). UNITS: for convection, Burgers, shallow water and "
+        "Euler 1-D, every registered flux, every reconstruction and limiter, every boundary pair (real bodies, abstract mesh, "
+        "symbolic ncell, seam cells + generic cell): the symbolic residual of component k and the time step admit a "
+        "dimensional typing derivation with the units Q_k/time and time, i.e. they are homogeneous of that degree in the "
+        "three scale factors for all inputs (proof by induction on the term).",
+   note=TB + "; units: the typing rules are the trusted part (sum/comparison of equal units, products add exponents, sqrt "
+        "halves, x**y/log of dimensionless arguments, the literal 0 of any unit); 'bit for bit for powers of two' is the "
+        "per-operation floating-point lemma stated in the evidence (no overflow/underflow), exercised on the real code by the "
+        "replay (three factor triples, O(1) and 1e-9 / 1e-19 variations); nozzle not typed (same operator as euler1d plus the "
+        "section law's own unit); integrators/driver by linearity in the residuals (normal forms C05-C07).",
+   ref="§6 C13, §11")
 
 CHECKS["C09"] = dict(
    technique="contract-based deductive verification: limiter through its C12 contract, fvm1d.rhs / time step / minimum "
